@@ -39,12 +39,13 @@ ASSUMPTIONS = [
 ANCHORS = ['pfhedge._utils.bisect:bisect',
            'pfhedge._utils.bisect:find_implied_volatility']
 PYTEST_WORKLOAD = True  # thorough tier also runs /repo/tests with these passive monitors attached (DESIGN.md 2.7)
-DECIDING = ["bisect.post", "bisect.analytic", "bisect.abort", "iv.european", "iv.american_binary", "iv.lookback", "iv.european_binary"]
-REQUIRED_BRANCHES = ["bisect.decreasing", "bisect.increasing", "bisect.tensor_bracket", "bisect.from.quadratic_cvar", "bisect.from.cash",
+DECIDING = ["iv.from_derivative_is_explicit", "bisect.post", "bisect.analytic", "bisect.abort", "iv.european", "iv.american_binary", "iv.lookback", "iv.european_binary"]
+REQUIRED_BRANCHES = ["iv.derivative.running_max_above_spot", "abort.exact_budget", "abort.budget_minus_one", "abort.zero_budget_narrow", "bisect.decreasing", "bisect.increasing", "bisect.tensor_bracket", "bisect.from.quadratic_cvar", "bisect.from.cash",
                      "bisect.from.implied_volatility"]
 
 _CTX = None
 _DEPTH = [0]
+_JUDGING = [0]
 _LAST = {}
 
 
@@ -70,7 +71,8 @@ def _mk_bisect(orig):
         count = [0]
 
         def counted(x):
-            count[0] += 1
+            if not _JUDGING[0]:  # evaluations made by the oracle of a nested call (decreasing fn: bisect recurses on -fn) are not the library's
+                count[0] += 1
             return fn(x)
 
         nested = _DEPTH[0] > 0
@@ -96,12 +98,15 @@ def _mk_bisect(orig):
         _LAST["n_eval"] = count[0]
         if not nested:
             ctx.branch("bisect.from." + _origin())
+        _JUDGING[0] += 1
         try:
             _judge(ctx, mon, fn, target, lower, upper, precision, max_iter, out, err, count[0], nested)
         except Exception as ex:
             from ..core import HarnessError
 
             raise HarnessError(f"bisect oracle failed: {ex!r}")
+        finally:
+            _JUDGING[0] -= 1
         if err is not None:
             raise err
         return out
@@ -335,7 +340,27 @@ def drv_abort(ctx, k, rng):
         count[0] += 1
         return a * x
 
-    mode = pick(rng, ["unreachable", "max_iter"])
+    mode = pick(rng, ["unreachable", "max_iter", "exact_budget", "exact_budget", "budget_minus_one", "zero_budget_narrow"])
+    if mode in ("exact_budget", "budget_minus_one", "zero_budget_narrow"):
+        # dyadic bracket: the width after j halvings is exactly 2^-j, so the number of iterations needed for precision 1.3 * 2^-j is exactly j.
+        # Documented: abort only if the number of iterations *exceeds* max_iter.
+        ctx.branch("abort." + mode)
+        j = int(pick(rng, [1, 5, 12, 20])) if mode != "zero_budget_narrow" else 0
+        lo, up = torch.tensor(0.0, dtype=dtype), torch.tensor(1.0, dtype=dtype)
+        precision = 1.3 * 2.0 ** -j
+        max_iter = j if mode != "budget_minus_one" else j - 1
+        dec = bool(rng.random() < 0.5)
+        g = (lambda x: (count.__setitem__(0, count[0] + 1), -a * x)[1]) if dec else f
+        target = torch.tensor((-a if dec else a) * 0.37, dtype=dtype)
+        try:
+            out = B.bisect(g, target, lo, up, precision=precision, max_iter=max_iter)
+            ok = mode != "budget_minus_one" and abs(float(out) - 0.37) <= precision * (1 + 1e-6)
+            why = f"bisect returned {float(out)!r} (root 0.37, precision {precision}, max_iter {max_iter}, {j} halvings needed, mode {mode})"
+        except RuntimeError as ex:
+            ok = mode == "budget_minus_one"
+            why = f"bisect raised '{ex}' although {j} iterations reach precision {precision} on [0, 1] and max_iter={max_iter} allows them"
+        ctx.check(mon, ok, "iteration_budget", why, sig=(mode, str(dtype), j, dec), precision=precision, max_iter=max_iter, halvings_needed=j)
+        return
     if mode == "unreachable":
         lo, up = torch.tensor(1000.0, dtype=dtype), torch.tensor(1001.0, dtype=dtype)
         precision, max_iter = (1e-9 if dtype == F32 else 1e-16), int(pick(rng, [50, 200, 1000]))
@@ -422,6 +447,42 @@ def drv_iv(ctx, k, rng):
         ctx.sample({"driver": "iv", "kind": kind, "dtype": str(dtype), "precision": precision, "sigma": sig[:3], "iv": iv[:3]})
 
 
+def drv_iv_derivative(ctx, k, rng):
+    """implied_volatility of a module built from a derivative: omitted arguments are the derivative's own (spot, running maximum, time to maturity)."""
+    from pfhedge.instruments import AmericanBinaryOption, BrownianStock, EuropeanBinaryOption, EuropeanOption, LookbackOption
+
+    dtype = pick(rng, [None, F64])
+    kind = pick(rng, ["european", "american_binary", "lookback", "european_binary"])
+    K = float(pick(rng, [1.0, 0.9, 1.1]))
+    sig0 = float(rng.uniform(0.1, 0.6))
+    stock = BrownianStock(sigma=sig0, dtype=dtype, dt=float(pick(rng, [1 / 250, 1 / 12])))
+    cls = {"european": EuropeanOption, "american_binary": AmericanBinaryOption, "lookback": LookbackOption, "european_binary": EuropeanBinaryOption}[kind]
+    d = cls(stock, strike=K, maturity=int(pick(rng, [3, 6])) * stock.dt)
+    d.simulate(n_paths=int(pick(rng, [1, 4])))
+    mod = {"european": BSEuropeanOption, "american_binary": BSAmericanBinaryOption, "lookback": BSLookbackOption,
+           "european_binary": BSEuropeanBinaryOption}[kind].from_derivative(d)
+    vol = torch.full_like(stock.spot, float(rng.uniform(0.05, 0.9)))
+    precision = float(pick(rng, [1e-4, 1e-5]))
+    mon = "iv.from_derivative_is_explicit"
+    ctx.seen(mon)
+    with torch.no_grad():
+        price = mod.price(volatility=vol)
+        lm, ttm = d.log_moneyness(), d.time_to_maturity()
+        if kind in ("american_binary", "lookback"):
+            mx = d.max_log_moneyness()
+            if bool((mx > lm).any()):
+                ctx.branch("iv.derivative.running_max_above_spot")
+            a = mod.implied_volatility(price=price, precision=precision)
+            b = mod.implied_volatility(lm, mx, ttm, price, precision=precision)
+        else:
+            a = mod.implied_volatility(price=price, precision=precision)
+            b = mod.implied_volatility(lm, ttm, price, precision=precision)
+    ok = a.shape == b.shape and bool(((a == b) | (torch.isnan(a) & torch.isnan(b))).all())
+    ctx.check(mon, ok, "iv_from_derivative", f"{kind}: implied_volatility(price=...) of a module built from a derivative differs from the call with the "
+              "derivative's own log-moneyness / running maximum / time to maturity passed explicitly", sig=(kind, str(dtype), K == 1.0),
+              omitted=a.reshape(-1)[:6], explicit=b.reshape(-1)[:6])
+
+
 def drv_witness(ctx, k, rng):
     """Fixed witness of the known finding bisect.python_float_bracket_searched_in_float32."""
     a = torch.tensor(1.7, dtype=F64)
@@ -436,6 +497,7 @@ DRIVERS = [
     ("witness", 1, 1, drv_witness),
     ("analytic", 300, 20000, drv_analytic),
     ("abort", 30, 600, drv_abort),
+    ("iv_derivative", 40, 1500, drv_iv_derivative),
     ("callers", 30, 500, drv_callers),
     ("iv", 160, 8000, drv_iv),
 ]
